@@ -465,7 +465,28 @@ fn marker_outlives_short_waits(r: &mut Report) {
             runs.push((s, a, first));
         }
     }
+    // ... and a steady endpoint whose reference was stored before the wait must be evaluated after it (its entry lives 30 s)
+    let mut steady = vec![];
+    for v6 in [false, true] {
+        for (from_a, f0) in [(true, SYN), (false, SYN | ACK)] {
+            let s = Scn { v6, pa: 40001, pb: 80, unified: false, segs: vec![Seg { from_a, flags: f0, at_ms: T0, tsval: 50_000 }, Seg { from_a, flags: ACK, at_ms: T0 + 1000, tsval: 51_000 }] };
+            let mut a = TcpSeq::new(None, 16);
+            set_clock(s.segs[0].at_ms);
+            let _ = a.feed(&frame(&s, &s.segs[0]));
+            steady.push((s, a));
+        }
+    }
     std::thread::sleep(std::time::Duration::from_millis(120));
+    for (s, mut a) in steady {
+        r.exec(2);
+        set_clock(s.segs[1].at_ms);
+        let g = a.feed(&frame(&s, &s.segs[1]));
+        let f = g.client_uptime.as_ref().or(g.server_uptime.as_ref()).map(|u| u.freq);
+        r.outcome(&("steady-after-wait", f.map(|x| x as u64)));
+        if f != Some(1000.0) {
+            r.dev("C19/withheld-inside-bounds/after-a-real-wait", "withheld-inside-bounds", || json!({"kind": "marker-lifetime", "scenario": s, "packet": 1, "detail": "reference stored, 120 ms of real time later the second segment (1000 ticks in 1000 ms of capture time) yields no 1000 Hz estimate", "actual": g}));
+        }
+    }
     for (s, mut a, first) in runs {
         r.exec(4);
         let rest: Vec<TcpRes> = s.segs[2..].iter().map(|g| {
